@@ -41,6 +41,9 @@ type c09Case struct {
 	// visitor was relayed who had connected to EarlierPort (0 = nobody)
 	Port        int `json:",omitempty"`
 	EarlierPort int `json:",omitempty"`
+	// hello-unserved-method: the name the (otherwise valid) handshake asks for; WS: over the CDN transport
+	Method string `json:",omitempty"`
+	WS     bool   `json:",omitempty"`
 }
 
 func unb64(s string) []byte {
@@ -119,7 +122,7 @@ func c09Inner(c c09Case) (vk.Result, error) {
 	}
 	// cases whose first packet is (still) a genuine fresh handshake of an authorised user are outside the
 	// property's domain (they must be answered, see C06/C07): excluded, counted
-	if n, ok := vk.FirstPacketEnd(P); ok && !c.ReplayFirst && (P[0] == 0x16 || P[0] == 0x47) {
+	if n, ok := vk.FirstPacketEnd(P); ok && !c.ReplayFirst && !c09Credentialed(c.Class) && (P[0] == 0x16 || P[0] == 0x47) {
 		var tr Transport = TLS{}
 		if P[0] == 0x47 {
 			tr = WebSocket{}
@@ -384,12 +387,22 @@ func commonWorldNow() common.WorldState {
 	return common.WorldState{Rand: rand.Reader, Now: time.Now}
 }
 
+// c09Credentialed: classes whose first packet is a genuine, fresh, correctly sealed handshake that must nevertheless
+// not be answered: it names a proxy method the server does not serve, or a UID it does not authorise.
+func c09Credentialed(class string) bool {
+	return class == "hello-unserved-method" || class == "hello-unknown-uid"
+}
+
 func c09Gen(t *testing.T) func(rt *rapid.T) c09Case {
 	return func(rt *rapid.T) c09Case {
 		bases := c07GetBases(t)
-		c := c09Case{Class: rapid.SampledFrom([]string{"random", "tls-length", "hello-mutated", "hello-ext-mutated", "hello-ext-mutated", "hello-wrongkey", "hello-truncated", "hello-replayed", "http", "http", "http-nonewline"}).Draw(rt, "class")}
+		c := c09Case{Class: rapid.SampledFrom([]string{"random", "tls-length", "hello-mutated", "hello-ext-mutated", "hello-ext-mutated", "hello-wrongkey", "hello-truncated", "hello-replayed", "hello-unserved-method", "hello-unknown-uid", "http", "http", "http-nonewline"}).Draw(rt, "class")}
 		var P []byte
-		if c.Class == "hello-wrongkey" || c.Class == "hello-replayed" {
+		if c.Class == "hello-unserved-method" {
+			c.Method = rapid.SampledFrom([]string{"tor", "Shadowsocks", "SHADOWSOCKS", "shadowsock", "shadowsocks2"}).Draw(rt, "unserved")
+			c.WS = rapid.IntRange(0, 3).Draw(rt, "ws") == 0
+		}
+		if c.Class == "hello-wrongkey" || c.Class == "hello-replayed" || c09Credentialed(c.Class) {
 			// produced inside the case (needs the bubble clock): marker stream, replaced by the runner
 			P = nil
 		} else {
@@ -426,7 +439,7 @@ func c09Run(t *testing.T) func(c c09Case) (vk.Result, error) {
 		var verr error
 		berr := vk.Bubble(t, func() {
 			res, verr = vk.Protect(func() (vk.Result, error) {
-				if c.Class == "hello-wrongkey" || c.Class == "hello-replayed" {
+				if c.Class == "hello-wrongkey" || c.Class == "hello-replayed" || c09Credentialed(c.Class) {
 					// build the genuine-looking hello inside the bubble so that its timestamp is current
 					pub := vStaticPub
 					if c.Class == "hello-wrongkey" {
@@ -434,7 +447,14 @@ func c09Run(t *testing.T) func(c c09Case) (vk.Result, error) {
 						rand.Read(other[:])
 						pub = other // not a point derived from the server's key: decryption must fail
 					}
-					first, _, err := c08Capture(pub, false, "firefox", 0)
+					switch c.Class {
+					case "hello-unserved-method":
+						c08CaptureMethod = c.Method
+					case "hello-unknown-uid":
+						c08CaptureUID = "c09-nobody-knows"
+					}
+					first, _, err := c08Capture(pub, c.WS, "firefox", 0)
+					c08CaptureUID, c08CaptureMethod = "c08-bypass-user!", "shadowsocks"
 					if err != nil {
 						return vk.Result{}, fmt.Errorf("harness: %v", err)
 					}
